@@ -123,6 +123,25 @@ def fam_removal():
     return out
 
 
+def fam_mixed_emitters():
+    """C05 / C06: a removal that finds running and never-started emitters side by side (a schedule() that lands after
+    stop() was requested creates an emitter it does not start): every running one must have stopped when the call returns."""
+    return [
+        {"threads": {"app1": [["schedule", 1, 1], ["start"], ["stop"], ["join"]], "app2": [["schedule", 2, 2]]},
+         "emit": {"1": [1, 2], "2": [1]}},
+        {"threads": {"app1": [["schedule", 1, 1], ["start"], ["stop"], ["join"]]},
+         "emit": {"1": [1, 2], "2": [1]}, "scripts": {"1": {"1": [["schedule", 2, 2]]}}},
+        {"threads": {"app1": [["schedule", 1, 1], ["start"], ["unschedule_all"], ["stop"], ["join"]], "app2": [["stop"], ["schedule", 2, 2]]},
+         "emit": {"1": [1, 2], "2": [1]}},
+    ]
+
+
+def reversed_orders(progs):
+    """The same programs with the emitter set and the handler sets iterating in the opposite order (the library iterates
+    sets of emitters in _clear_emitters / start and sets of handlers in dispatch_events; any order must do)."""
+    return [dict(p, em_order="desc", h_order="desc") for p in progs]
+
+
 def fam_reentrant_unschedule():
     """C04 / C05: whichever handler of a watch is handed the event first removes the whole watch (unschedule / unschedule_all)
     from inside its callback; the other handlers of that watch are no longer registered and must not see the event.  Both
@@ -307,7 +326,7 @@ def obs_random(params):
 # ----------------------------------------------------------------------------- running
 
 
-def run_families(c: checklib.Check, prop, families, *, bound, random_n=0, dfs_jobs=None):
+def run_families(c: checklib.Check, prop, families, *, bound, random_n=0, dfs_jobs=None, sampled=()):
     """Explore every program of the families, validate all traces, report violations owned by `prop`."""
     traces, meta = [], []
     total = 0
@@ -332,6 +351,18 @@ def run_families(c: checklib.Check, prop, families, *, bound, random_n=0, dfs_jo
                 meta.append({"scenario": SCEN, "params": pat, "choices": rec["choices"], "family": name})
         total += n_f
         c.note(f"family {name}: {len(progs)} programs, bound={bnd}, {n_f} executions, {d_f} distinct traces")
+    for name, progs, nseeds in sampled:
+        n_f = d_f = 0
+        for i, pat in enumerate(progs):
+            base = c.seed * 1000003 + i * 7919
+            n, recs = explore.sample(SCEN, pat, range(base, base + nseeds), jobs=c.jobs, extra={"stickiness": 0.5})
+            n_f += n
+            d_f += len(recs)
+            for rec in recs:
+                traces.append(rec["trace"])
+                meta.append({"scenario": SCEN, "params": pat, "choices": rec["choices"], "family": name})
+        total += n_f
+        c.note(f"family {name}: {len(progs)} programs, {nseeds} random schedules each, {n_f} executions, {d_f} distinct traces")
     if random_n:
         base = c.seed * 1000003
         n, recs = explore.sample("checks.observer_engine:obs_random", {}, range(base, base + random_n), jobs=c.jobs,
